@@ -232,6 +232,15 @@ def rule_ticket(ctx):
         eff = [t for t in tests if "T" in dead_edge_labels(g13, t, sel, blocked=src + heads)]
         must_pass(ctx, R, f13, g13, src, sel, eff, "TLS 1.3 ticket gate: " + what,
                   "a TLS 1.3 ticket is selected without the check: " + what, kills=heads)
+    # ... and the server name: a ticket issued for one name is not resumed for another (the TLS <= 1.2
+    # path refuses that with an alert; here the candidate is skipped and a full handshake follows)
+    from ..query import mentions_all
+    tests = [t for t in g13.nodes if t.kind == "test" and mentions_all(t.expr, ["ticket.server_name", "clientHello.server_name"])]
+    eff = [t for t in tests if dead_edge_labels(g13, t, sel, blocked=src + heads)]
+    must_pass(ctx, R, f13, g13, src, sel, eff, "TLS 1.3 ticket gate: issued for the server name now asked for",
+              "a TLS 1.3 ticket issued for one server name is resumed for a ClientHello that asks for another: "
+              "the resumed connection does not have the original session's server name",
+              cut=falsy_edges(g13, "ticket"), kills=heads)
 
 
 def rule_invalidate(ctx):
